@@ -134,5 +134,5 @@ def run_shard(spec) -> Acc:
 
 
 def plan(tier, seed):
-    n = 250 if tier == "quick" else 6000
+    n = 400 if tier == "quick" else 6000
     return [{"shard": i, "n": n} for i in range(16)]
